@@ -429,7 +429,7 @@ class World:
             x.split_to(S[a['y']], S[a['z']], split, energy_balance=a['eb'])
         elif op == 'separate_out':
             S[a['x']].separate_out(S[a['y']], energy_balance=False)
-        elif op == 'copy_flow':
+        elif op in ('copy_flow', 'copy_flow_multi'):
             if a['all']:
                 IDs = ...
             else:
@@ -479,7 +479,17 @@ class World:
             S[a['d']] = S[a['x']].copy()
             self.saved[a['d']] = None
         elif op == 'pickle':
-            S[a['d']] = pickle.loads(pickle.dumps(S[a['x']]))
+            # the default property package of the session is the stream's own when it is pickled and another one when the pickle
+            # is loaded (every other time): the pickle must carry its package
+            src = S[a['x']]
+            self._pickles = getattr(self, '_pickles', 0) + 1
+            if self._pickles % 2:
+                tmo.settings.set_thermo(src.thermo)
+            blob = pickle.dumps(src)
+            if self._pickles % 2:
+                other = [p for p in sorted(self.universe['pkgs']) if thermo(p) is not src.thermo]
+                tmo.settings.set_thermo(thermo(other[0]))
+            S[a['d']] = pickle.loads(blob)
             self.saved[a['d']] = None
         elif op == 'copy_like':
             S[a['d']].copy_like(S[a['x']])
@@ -538,14 +548,15 @@ def random_op(universe, rng, st, ops):
         return op, dict(x=x, y=y, z=z, q=q, eb=rng.random() < 0.5, scalar=scalar)
     if op == 'separate_out':
         return op, dict(x=x, y=y)
-    if op == 'copy_flow':
+    if op in ('copy_flow', 'copy_flow_multi'):
         pk = universe['pkgs'][st['st'][y]['pkg']]
         ids = sorted(c for c in pk if c <= nc and rng.random() < 0.5)
         allf = rng.random() < 0.4
         if allf:
             ids = sorted(c for c in pk if c <= nc)
-        return op, dict(x=x, y=y, ids=ids, all=allf and len(ids) == len([c for c in pk if c <= nc]), remove=rng.random() < 0.5,
-                        excl=(not allf) and rng.random() < 0.3, as_str=rng.random() < 0.5)
+        name = 'copy_flow_multi' if st['st'][x]['k'] == 'm' else 'copy_flow'      # multi-phase receivers: contract on totals only
+        return name, dict(x=x, y=y, ids=ids, all=allf and len(ids) == len([c for c in pk if c <= nc]), remove=rng.random() < 0.5,
+                          excl=(not allf) and rng.random() < 0.3, as_str=rng.random() < 0.5)
     if op == 'scale':
         return op, dict(x=x, q=rng.choice([[1, 2], [2, 1], [3, 1], [1, 4], [0, 1], [1, 1]]))
     if op == 'empty':
